@@ -296,7 +296,8 @@ def main(argv):
                     continue
                 # lines are separated by "\n" only: other control characters (form feed page breaks of legacy sources,
                 # vertical tab, NEL, unicode separators) inside earlier lines must not shift the reported position
-                decorations = [[], ["\x0c", "  ! page\x0bbreak \x1c \x85 \u2028 here"]]
+                decorations = [[], ["\x0c", "  ! page\x0bbreak \x1c \x85 \u2028 here"],
+                               ["  integer :: zz1, &", "  ! comment inside the continuation", "", "     zz2, &", "", "     zz3"]]
                 for garbage in ("@@ not fortran @@", "= = ="):
                     for deco in decorations:
                         src = "\n".join(lines[:1] + deco + lines[1:li] + ["  " + garbage] + lines[li + 1:]) + "\n"
